@@ -125,6 +125,9 @@ func c14Run(sc *C14Scenario) *c14Outcome {
 	mc := newMachine()
 	mc.illFormed = sc.Prog.IllFormed
 	mc.literal = sc.Prog.Literal
+	if sc.Prog.Literal {
+		mc.m = newLiteralModule()
+	}
 	mc.richConsts = sc.Prog.Rich
 	mc.explicitMD = sc.Prog.ExplicitMD
 	var history []string
